@@ -15,6 +15,11 @@
  *   G <svc> <cmd> <nargs|-> <arg>* | ok sh:<hex> | ok argv:<list> | err <kind>
  *   X <svc> <cmd> <nargs|-> <arg>* <exit> <outhex> <timeout_s> <sleep_ds>
  *        | <ran> <argv list> <none|sh:<hex>|argv:<list>> <state> <exit> <outhex> <perf list> <gone>
+ *   H <svc> <level> <esc> <hex> | <st1> <v1> <m1> <cache> <st2> <v2> <m2>      ResolveMacros twice: fill resolvedMacros, then use it
+ *   K <svc> <cmd> <nargs|-> <arg>* | <st1> <c1> <cache> <st2> <c2>              ResolveArguments twice (fill, use)
+ *   Y <svc> <cmd> <nargs|-> <arg>* <exit> <outhex> | <cache> <fillRan> <direct: 8 fields as X> <cached: 8 fields as X>
+ *        full PluginCheckTask::ScriptFunc three times: direct, fill (resolvedMacros, useResolvedMacros=false: must not run), cached
+ *        cache := <namehex>=<val>+… | ~        st := ok | err
  *   P <exit> <outhex> | <state> <exit> <outhex> <perf list>          ProcessFinishedHandler on a synthetic result
  *   E <exit> | <state>                                                ExitStatusToState
  *   W <hex> | <ran> <argv list>                                       real `sh -c "<plugin> <text>"` through Process
@@ -165,6 +170,17 @@ static B CmdTok(const Value& v)
 	}
 	if (v.GetType() == ValueEmpty) return "none";
 	return "sh:" + Hex(static_cast<String>(v).GetData());
+}
+
+static B CacheTok(const Dictionary::Ptr& macros)
+{
+	B r;
+	ObjectLock olock(macros);
+	for (const Dictionary::Pair& kv : macros) {
+		if (!r.empty()) r += "+";
+		r += Hex(kv.first.GetData()) + "=" + ValueTok(kv.second);
+	}
+	return r.empty() ? B("~") : r;
 }
 
 static B ErrKind(const std::exception& ex)
@@ -356,9 +372,13 @@ static Dictionary::Ptr PluginEnv(const B& dump, int exitCode, const B& out, int 
 	});
 }
 
-static B DoX(bool svc, const Value& cmd, const Dictionary::Ptr& args, int exitCode, const B& out, int timeoutS, int sleepDs)
+static B l_LastDump;
+
+static B RunCheck(bool svc, const Value& cmd, const Dictionary::Ptr& args, int exitCode, const B& out, int timeoutS, int sleepDs,
+	const Dictionary::Ptr& macros, bool useResolved, bool wait)
 {
 	B dump = l_Tmp + "/d" + std::to_string(++l_Spawn);
+	l_LastDump = dump;
 	unlink(dump.c_str());
 	unlink((dump + ".pid").c_str());
 	l_Cmd->SetCommandLine(cmd);
@@ -375,7 +395,12 @@ static B DoX(bool svc, const Value& cmd, const Dictionary::Ptr& args, int exitCo
 		l_Done = true;
 		l_Cv.notify_all();
 	};
-	PluginCheckTask::ScriptFunc(checkable, cr, nullptr, false);
+	PluginCheckTask::ScriptFunc(checkable, cr, macros, useResolved);
+	if (!wait) {
+		/* fill pass (pluginutility.cpp:74-75): nothing is started; an error is reported synchronously */
+		Checkable::ExecuteCommandProcessFinishedHandler = nullptr;
+		return "";
+	}
 	{
 		std::unique_lock<std::mutex> lock(l_Mx);
 		if (!l_Cv.wait_for(lock, std::chrono::seconds(120), [] { return l_Done; })) {
@@ -399,6 +424,28 @@ static B DoX(bool svc, const Value& cmd, const Dictionary::Ptr& args, int exitCo
 	unlink(dump.c_str());
 	unlink((dump + ".pid").c_str());
 	return o.str();
+}
+
+static B DoX(bool svc, const Value& cmd, const Dictionary::Ptr& args, int exitCode, const B& out, int timeoutS, int sleepDs)
+{
+	return RunCheck(svc, cmd, args, exitCode, out, timeoutS, sleepDs, nullptr, false, true);
+}
+
+/* direct run, then the two passes of a remotely executed check (checkable-check.cpp: the scheduling node fills
+ * `macros`, the executing node resolves from them) */
+static B DoY(bool svc, const Value& cmd, const Dictionary::Ptr& args, int exitCode, const B& out)
+{
+	B direct = RunCheck(svc, cmd, args, exitCode, out, 0, 0, nullptr, false, true);
+	Dictionary::Ptr macros = new Dictionary();
+	RunCheck(svc, cmd, args, exitCode, out, 0, 0, macros, false, false);
+	B fillDump = l_LastDump;
+	B cacheTok = CacheTok(macros);
+	B cached = RunCheck(svc, cmd, args, exitCode, out, 0, 0, macros, true, true);
+	struct stat st;
+	int fillRan = stat(fillDump.c_str(), &st) == 0 ? 1 : 0;
+	unlink(fillDump.c_str());
+	unlink((fillDump + ".pid").c_str());
+	return cacheTok + " " + std::to_string(fillRan) + " " + direct + " " + cached;
 }
 
 static B DoP(int exitCode, const B& out)
@@ -494,6 +541,44 @@ static bool Exec(const B& lineIn)
 		B out;
 		if (!Unhex(w[i + 1], out)) return false;
 		o << DoX(w[1] == "1", cmd, args, atoi(w[i].c_str()), out, atoi(w[i + 2].c_str()), atoi(w[i + 3].c_str()));
+	} else if (op == "H" && w.size() == 5) {
+		B str;
+		if (!Unhex(w[4], str)) return false;
+		bool svc = w[1] == "1", esc = w[3] == "1";
+		int level = atoi(w[2].c_str());
+		MacroProcessor::EscapeCallback fn = esc ? MacroProcessor::EscapeCallback(get(RobEscape())) : MacroProcessor::EscapeCallback();
+		Dictionary::Ptr macros = new Dictionary();
+		for (int pass = 0; pass < 2; pass++) {
+			String missing;
+			try {
+				Value r = MacroProcessor::ResolveMacros(String(str), Resolvers(svc), nullptr, &missing, fn, macros, pass == 1, level);
+				o << "ok " << ValueTok(r) << " " << (missing.IsEmpty() ? 0 : 1);
+			} catch (const std::exception& ex) {
+				o << "err " << ErrKind(ex) << " -";
+			}
+			if (pass == 0) o << " " << CacheTok(macros) << " ";
+		}
+	} else if (op == "K") {
+		size_t i = 2;
+		Value cmd; Dictionary::Ptr args;
+		if (w.size() < 4 || !ParseCmdArgs(w, i, cmd, args) || i != w.size()) return false;
+		Dictionary::Ptr macros = new Dictionary();
+		for (int pass = 0; pass < 2; pass++) {
+			try {
+				Value r = MacroProcessor::ResolveArguments(cmd, args, Resolvers(w[1] == "1"), nullptr, macros, pass == 1);
+				o << "ok " << CmdTok(r);
+			} catch (const std::exception& ex) {
+				o << "err " << ErrKind(ex);
+			}
+			if (pass == 0) o << " " << CacheTok(macros) << " ";
+		}
+	} else if (op == "Y") {
+		size_t i = 2;
+		Value cmd; Dictionary::Ptr args;
+		if (w.size() < 6 || !ParseCmdArgs(w, i, cmd, args) || i + 2 != w.size()) return false;
+		B out;
+		if (!Unhex(w[i + 1], out)) return false;
+		o << DoY(w[1] == "1", cmd, args, atoi(w[i].c_str()), out);
 	} else if (op == "P" && w.size() == 3) {
 		B out;
 		if (!Unhex(w[2], out)) return false;
@@ -779,6 +864,15 @@ static void Gen(uint64_t seed, bool thorough)
 			else
 				Must("G " + std::to_string(r.below(2)) + " " + RandCmdArgs(r, false));
 		}
+		/* the same through the resolvedMacros cache (fill, then use) */
+		int cops = 1 + (int)r.below(3);
+		for (int i = 0; i < cops; i++) {
+			if (r.below(3) == 0)
+				Must("H " + std::to_string(r.below(2)) + " " + std::to_string(r.below(8) ? 0 : r.below(16)) + " " + std::to_string(r.below(2)) + " "
+					+ Hex(MacroString(r, 4)));
+			else
+				Must("K " + std::to_string(r.below(2)) + " " + RandCmdArgs(r, false));
+		}
 	}
 	/* output parsing through the finished-handler */
 	Must("C " + std::to_string(++n));
@@ -796,6 +890,17 @@ static void Gen(uint64_t seed, bool thorough)
 		GenSetup(r, ++n);
 		for (int i = 0; i < 2; i++)
 			Must("X " + std::to_string(r.below(2)) + " " + RandCmdArgs(r, true) + " " + std::to_string(RandExit(r)) + " " + Hex(RandOutput(r)) + " 0 0");
+		if (c % 2 == 0)
+			Must("Y " + std::to_string(r.below(2)) + " " + RandCmdArgs(r, true) + " " + std::to_string(RandExit(r)) + " " + Hex(RandOutput(r)));
+	}
+	/* cached path with hostile values in a string command line and in an array command line */
+	for (size_t h = 0; h < NEL(HOSTILE); h++) {
+		if (!thorough && h % 3 != ((seed + 1) % 3)) continue;
+		Must("C " + std::to_string(++n));
+		Must("T h address " + Hex(HOSTILE[h]));
+		Must("V h " + Hex("v0") + " S:" + Hex(Dbl(HOSTILE[h])));
+		Must("Y 0 s:" + Hex("@P -m $address$ --o=$v0$ $$") + " - 0 " + Hex("OK"));
+		Must("Y 0 a:" + HexList({ "@P", "$address$", "x$v0$" }) + " 1 " + Hex("-s") + ";1;~;S:" + Hex("$v0$") + ";0;0;1;0;-;E 1 " + Hex("W|a=1"));
 	}
 	/* Q-C09: a macro the administrator wrapped in double quotes inside a string command line */
 	for (size_t h = 0; h < NEL(HOSTILE); h++) {
